@@ -248,7 +248,8 @@ impl<'a> Iterator for ExtDiagBlockIter<'a> {
     type Item = ExtDiagBlock<'a>;
 
     fn next(&mut self) -> Option<Self::Item> {
-        let raw_buffer = self.ext_diag.raw_diag_buffer().unwrap();
+        // Without a diagnostics buffer, no extended diagnostics are captured so there are no blocks.
+        let raw_buffer = self.ext_diag.raw_diag_buffer()?;
         if self.cursor >= raw_buffer.len() {
             return None;
         }
